@@ -1014,7 +1014,8 @@ def _active_edges_single_path(
             solver.ensure(is_passed[i].then((degree == 1) | (degree == 2)))
             solver.ensure((~is_passed[i]).then(degree == 0))
             is_endpoint.append(degree == 1)
-        solver.ensure(count_true(is_endpoint) == 2)
+        # a path has exactly two endpoints; the empty edge set is allowed as documented
+        solver.ensure((count_true(is_endpoint) == 2) | (count_true(is_active_edge) == 0))
         line_graph = graph.line_graph()
         _active_vertices_connected(
             solver, is_active_edge, line_graph, acyclic=False, use_graph_primitive=True
